@@ -52,19 +52,22 @@ Obligations (every `theorem` directly in `namespace DendroModel.C03` of this fil
   bare seed; histories continued from those states (`runE`) stay free of sharing.
 * `encodeStruct_is_C01`, `encodeStruct_rooted`, `encode_is_fresh`, `step_update_is_fresh` — CLAUSE (c), through C01's model of
   `encode_bipartitions` (imported read-only): the restructuring `step` performs is the tree C01's `encode` encodes; the
-  encoding that call stores equals a fresh, non-restructuring encoding of the tree it leaves; and for 11 operations asked to
+  encoding that call stores equals a fresh, non-restructuring encoding of the tree it leaves; and for 12 operations asked to
   update bipartitions the returned state is the output of such a final call.
+* `suppressLoop_repr`, `suppressLoop_refines` — the loop of `Tree.suppress_unifurcations` as written (post-order, every node with
+  one child spliced out at its position, seed case) leaves a heap that represents `sup t`.  `reseedAt_refines` — `reseed_at`
+  with `suppress_unifurcations=True` IN FULL for an internal new seed: chain, guarded basal `Edge.collapse`, suppression loop
+  (the full form of `reseedAt_refines_partial`).
 * `repr_is_arborescence` — what `Repr h none t ∧ WF t` says on the pointers alone: clause (a) literally.
 * `gen_*` — tie (A): the decision kernels regenerated from the current source (`Gen/C03Guards.lean`) are what the model does.
 
-NOT proved here (the definitions exist, are executable and are compared with the code on every run, but carry no
-theorem): the pointer-level clean-up `suppress_unifurcations` (the post-order loop) and the leaf-target clean-up after the
-inversion chain — hence `reseedAt_refines_partial` stays partial (the basal-bifurcation part of the clean-up is
-`collapseBasal_repr`, the whole of `suppress_unifurcations=False` is `reseedAt_collapse_refines`); pointer-level refinement of the
-raising path of `filter_leaf_nodes` (its error state is modelled at tree level: `errState`; `remove_child` and `Edge.collapse`
-have their error refinements on the heap); clause (c) for `reroot_at_edge`, `to_outgroup_position`, `suppress_unifurcations`, `randomly_reorient` (the model has no stored
-encoding: `step_update_is_fresh` speaks of the tree the final encoding call leaves; the stored masks are judged by the oracle); `reroot_at_midpoint`
-(no model).
+NOT proved here: the leaf-target clean-up of `reseed_at` (a LEAF as new seed is outside the documented domain; not in the
+heap model), so `reseedAt_refines` assumes an internal new seed; the pointer-level `supStep` / `supLoop` are executable
+(`heap suppress`) but not yet among the harness's generated heap cases (their tree-level counterpart `sup` is compared on
+every `suppress` / `encode` / `reseed` step); pointer-level refinement of the raising path of `filter_leaf_nodes` (its error
+state is modelled at tree level: `errState`); clause (c) for `to_outgroup_position`, `suppress_unifurcations`,
+`randomly_reorient` (the model has no stored encoding: `step_update_is_fresh` speaks of the tree the final encoding call
+leaves; the stored masks are judged by the oracle); `reroot_at_midpoint` (no model).
 Helper lemmas are in `DendroModel.C03.Aux` / `.AuxP` / `.AuxR` / `.AuxH` / `.HeapAux` / `.Leaves`. -/
 namespace DendroModel.C03.Aux
 open DendroModel DendroModel.C03
@@ -6982,6 +6985,7 @@ def Op.UpdatesBipartitions : Op → Prop
   | .encode _ _ => True
   | .reseedAt _ _ _ => True
   | .rerootAtNode _ ub _ _ => ub = true
+  | .rerootAtEdge _ _ _ ub _ => ub = true
   | .collapseUnweighted _ ub => ub = true
   | .resolve _ ub => ub = true
   | .resolveRng _ ub _ => ub = true
@@ -6994,7 +6998,7 @@ def Op.UpdatesBipartitions : Op → Prop
 
 /-- … for every such operation, the state `step` returns IS the output of a final `encode_bipartitions(a, b)` on some state
 `s1` (the operation's own restructuring done): so the encoding that call stores, `C01.encode s1.rooted a b s1.t`, equals the
-fresh encoding of the returned tree (`encode_is_fresh`).  Not covered: `reroot_at_edge` (ends with the same call; not proved here), `to_outgroup_position`, `suppress_unifurcations`,
+fresh encoding of the returned tree (`encode_is_fresh`).  Not covered: `to_outgroup_position`, `suppress_unifurcations`,
 `randomly_reorient`, whose `update_bipartitions` the model treats as structurally neutral (oracle only). -/
 theorem step_update_is_fresh (s s' : St) (op : Op) (hub : op.UpdatesBipartitions) (hs : step s op = .ok s') :
     ∃ (s1 : St) (a b : Bool), s' = encodeStruct a b s1 ∧
@@ -7014,6 +7018,25 @@ theorem step_update_is_fresh (s s' : St) (op : Op) (hub : op.UpdatesBipartitions
     simp only [step] at hs; split at hs
     · cases hs
     · injection hs with hs; exact key _ sp c (by rw [← hs]; rfl)
+  case rerootAtEdge head l1 l2 ub sp =>
+    subst hub
+    simp only [step] at hs; split at hs
+    · cases hs
+    · rename_i hne
+      injection hs with hs
+      simp only [Bool.or_eq_true, not_or] at hne
+      cases hp : parentOf head s.t with
+      | none => simp [hp] at hne
+      | some tl =>
+        cases hf : T.find? head s.t with
+        | none =>
+          have h0 := find_none_cnt head s.t hf
+          have h1 := parentOf_c_pos head s.t tl hp
+          have h2 := cnt_eq head s.t
+          omega
+        | some sub =>
+          simp only [rerootAtEdge, hp, hf] at hs
+          exact key _ sp true (by rw [← hs]; rfl)
   case collapseUnweighted thr ub =>
     subst hub; simp only [step] at hs; injection hs with hs; exact key _ true true (by rw [← hs]; rfl)
   case resolve lim ub =>
@@ -7049,6 +7072,498 @@ example : (Op.resolve 2 true).UpdatesBipartitions ∧
     ((step { t := exTree, rooted := some false } (.resolve 2 true)).toOption.map (fun s' => s'.t.cs.map T.id)) = some [1, 5, 6] ∧
     (C01.encode (some false) true true exTree).map Prod.fst = [1, 2, 3, 4, 8, 15] := by
   refine ⟨rfl, by decide, by decide⟩
+
+end DendroModel.C03
+
+
+/-! # the loop of suppress_unifurcations at pointer level; reseed_at in full -/
+
+namespace DendroModel.C03.AuxH
+open DendroModel DendroModel.C03 DendroModel.C03.Aux DendroModel.C03.HeapAux DendroModel.C03.AuxR
+
+/-- what replaces a unary node in `suppress_unifurcations`: its child, the lengths merged with `None` as absent -/
+def liftAdd (n : T) : List T :=
+  match n.cs with
+  | [ch] => [ch.withLen (addLen ch.len n.len)]
+  | _ => [n]
+
+/-- the heap one iteration of the loop leaves at a unary node `p` under `g` with child `k` -/
+def ssHeap (h : Heap) (g p k : Nat) : Heap :=
+  (Heap.insertChild (rmHeap h g p) g (((h.ch g).idxOf? p).getD 0) k).setPar p none
+
+theorem ssHeap_par (h : Heap) (g p k x : Nat) :
+    (ssHeap h g p k).par x = if x = p then none else (Heap.insertChild (rmHeap h g p) g (((h.ch g).idxOf? p).getD 0) k).par x := by
+  simp [ssHeap, Heap.setPar]
+
+theorem ssHeap_ch (h : Heap) (g p k x : Nat) :
+    (ssHeap h g p k).ch x = (Heap.insertChild (rmHeap h g p) g (((h.ch g).idxOf? p).getD 0) k).ch x := by
+  simp [ssHeap, Heap.setPar]
+
+theorem ssHeap_ok (h : Heap) (g p k : Nat) (hk : h.ch p = [k]) (hgp0 : g ≠ p) : LocalOK h (ssHeap h g p k) g p liftAdd where
+  far := by
+    intro x hxg hxp hxk
+    have hxk' : x ≠ k := by rw [hk] at hxk; simpa using hxk
+    have hf := insertChild_far (rmHeap h g p) g (((h.ch g).idxOf? p).getD 0) k
+    rw [ssHeap_par, ssHeap_ch]
+    simp only [hxp, if_false]
+    rw [hf.2 x hxk', hf.1 x hxg]
+    simp [rmHeap, hxp, hxg]
+  parP := by
+    intro hgp hgk
+    have hgk' : g ≠ k := by rw [hk] at hgk; simpa using hgk
+    have hf := insertChild_far (rmHeap h g p) g (((h.ch g).idxOf? p).getD 0) k
+    rw [ssHeap_par]
+    simp only [hgp, if_false]
+    rw [hf.2 g hgk']; simp [rmHeap, hgp]
+  loc := by
+    intro pre post n hn hrl hnd hch
+    have hsp := reprL_split h (some g) pre (n :: post) hrl
+    have hrn : Repr h (some g) n := by have := hsp.2; simp only [ReprL] at this; exact this.1
+    have hnd' := List.nodup_cons.mp hnd
+    have hg_all := hnd'.1
+    have hnd2 := hnd'.2
+    simp only [idsL_append, idsL] at hnd2 hg_all
+    simp only [List.mem_append, not_or] at hg_all
+    have hdis1 : ∀ a ∈ idsL pre, ∀ b ∈ ids n ++ idsL post, a ≠ b := (List.nodup_append.mp hnd2).2.2
+    have hnd_rest := (List.nodup_append.mp hnd2).2.1
+    have hndn := (List.nodup_append.mp hnd_rest).1
+    have hdis2 : ∀ a ∈ ids n, ∀ b ∈ idsL post, a ≠ b := (List.nodup_append.mp hnd_rest).2.2
+    have hpn : p ∈ ids n := hn ▸ id_mem_ids n
+    have hp_pre : p ∉ pre.map T.id := fun hm => hdis1 p (map_id_sub_idsL pre p hm) p (List.mem_append_left _ hpn) rfl
+    have hchp : h.ch p = n.cs.map T.id := by rw [← hn]; exact repr_root_ch h (some g) n hrn
+    cases n with
+    | node j a b d e =>
+    simp only [T.id] at hn; subst hn
+    simp only [T.cs] at hchp
+    rw [hk] at hchp
+    match e, hchp with
+    | [ch], hchp =>
+    have hkid : ch.id = k := by simpa using hchp.symm
+    simp only [Repr, ReprL, and_true] at hrn
+    have hrch : Repr h (some j) ch := hrn.2.2
+    simp only [ids, idsL, List.append_nil, List.nodup_cons] at hndn
+    have hkn : k ∈ ids (T.node j a b d [ch]) := by simp [ids, idsL, ← hkid, id_mem_ids ch]
+    have hkj : k ≠ j := fun e1 => hndn.1 (e1 ▸ hkid ▸ id_mem_ids ch)
+    have hkg : k ≠ g := fun e1 => hg_all.2.1 (e1 ▸ hkn)
+    have hch' : h.ch g = pre.map T.id ++ j :: post.map T.id := by rw [hch]; simp [T.id]
+    have hpos : ((h.ch g).idxOf? j).getD 0 = (pre.map T.id).length := by rw [hch', idxOf_mid j _ _ hp_pre]; rfl
+    have hrm : (rmHeap h g j).ch g = pre.map T.id ++ post.map T.id := by
+      simp only [rmHeap, if_true]; rw [hch', erase_mid _ _ j hp_pre]
+    have hkXY : k ∉ pre.map T.id ∧ k ∉ post.map T.id :=
+      ⟨fun hm => hdis1 k (map_id_sub_idsL pre k hm) k (List.mem_append_left _ hkn) rfl,
+       fun hm => hdis2 k hkn k (map_id_sub_idsL post k hm) rfl⟩
+    obtain ⟨a1, a2, a3, a4⟩ := insertChild_absent (rmHeap h g j) g k (pre.map T.id) (post.map T.id) hrm hkXY
+    rw [← hpos] at a1 a2 a3 a4
+    refine ⟨?_, ?_⟩
+    · rw [ssHeap_ch, a1]
+      simp [liftAdd, T.cs, hkid]
+    · simp only [liftAdd, T.cs, ReprL, and_true]
+      apply withLen_repr
+      apply repr_reparent h _ (some j) (some g) ch hrch
+      · intro x hx
+        have hxch : x ∈ ids ch := by cases ch; simp only [T.cs] at hx; simp [ids, hx]
+        have hxk : x ≠ k := by
+          intro e1
+          cases ch with
+          | node i2 a2' b2 d2 e2 =>
+            simp only [T.id] at hkid; subst hkid
+            simp only [T.cs] at hx
+            have := hndn.2; simp only [ids, List.nodup_cons] at this
+            exact this.1 (e1 ▸ hx)
+        have hxj : x ≠ j := fun e1 => hndn.1 (e1 ▸ hxch)
+        have hxg : x ≠ g := fun e1 => hg_all.2.1 (by rw [← e1]; simp [ids, idsL, hxch])
+        rw [ssHeap_par, ssHeap_ch]
+        simp only [hxj, if_false]
+        rw [a4 x hxk, a2 x hxg]
+        simp [rmHeap, hxj, hxg]
+      · rw [ssHeap_par, hkid]; simp only [hkj, if_false]; exact a3
+      · rw [ssHeap_ch, hkid, a2 k hkg]; simp [rmHeap, hkg]
+
+/-- tree-level reading of one loop iteration at a non-seed node, on a sibling list / on a tree -/
+def stepL (l : List T) (nd : Nat) : List T := spliceL nd liftAdd l
+def stepT (t : T) (nd : Nat) : T := splice nd liftAdd t
+
+mutual
+theorem postIds_sub : ∀ (t : T) (y : Nat), y ∈ Heap.postIds t → y ∈ ids t
+  | .node i a b d cs, y, hy => by
+      simp only [Heap.postIds, List.mem_append, List.mem_singleton] at hy
+      simp only [ids, List.mem_cons]
+      rcases hy with hy | hy
+      · exact Or.inr (postIdsL_sub cs y hy)
+      · exact Or.inl hy
+theorem postIdsL_sub : ∀ (cs : List T) (y : Nat), y ∈ Heap.postIdsL cs → y ∈ idsL cs
+  | [], y, hy => by simp [Heap.postIdsL] at hy
+  | c :: cs, y, hy => by
+      simp only [Heap.postIdsL, List.mem_append] at hy
+      simp only [idsL, List.mem_append]
+      rcases hy with hy | hy
+      · exact Or.inl (postIds_sub c y hy)
+      · exact Or.inr (postIdsL_sub cs y hy)
+end
+
+theorem sup_ids_sub (t : T) (y : Nat) (hy : y ∈ ids (sup t)) : y ∈ ids t := by
+  rw [mem_iff_cnt] at hy ⊢
+  exact Nat.le_trans hy (sup_le t y)
+
+theorem supL_ids_sub : ∀ (cs : List T) (y : Nat), y ∈ idsL (supL cs) → y ∈ idsL cs
+  | [], y, hy => by simp [supL, idsL] at hy
+  | c :: cs, y, hy => by
+      simp only [supL, idsL, List.mem_append] at hy ⊢
+      rcases hy with hy | hy
+      · exact Or.inl (sup_ids_sub c y hy)
+      · exact Or.inr (supL_ids_sub cs y hy)
+
+/-- steps strictly inside the element `node i …` of a sibling list act on its child list -/
+theorem fold_inside (i : Nat) (x : Option Nat) (l : Option Frac) (s : Option String) (pre post : List T) :
+    ∀ (order : List Nat) (cs : List T), (∀ nd ∈ order, nd ≠ i ∧ nd ∉ idsL pre ∧ nd ∉ idsL post) →
+    order.foldl stepL (pre ++ .node i x l s cs :: post) = pre ++ .node i x l s (order.foldl stepL cs) :: post
+  | [], cs, _ => rfl
+  | nd :: order, cs, h => by
+      have hnd := h nd (by simp)
+      have e : stepL (pre ++ .node i x l s cs :: post) nd = pre ++ .node i x l s (stepL cs nd) :: post := by
+        unfold stepL
+        rw [spliceL_decomp nd liftAdd _ post hnd.2.2 pre hnd.2.1]
+        have hin : i ≠ nd := fun e => hnd.1 e.symm
+        have hb : ((T.node i x l s cs).id == nd) = false := by simp [T.id, hin]
+        simp [hb, splice]
+      simp only [List.foldl_cons, e]
+      exact fold_inside i x l s pre post order _ (fun n hn => h n (by simp [hn]))
+
+theorem liftAdd_sup (i : Nat) (x : Option Nat) (l : Option Frac) (s : Option String) (cs : List T) :
+    liftAdd (.node i x l s (supL cs)) = [sup (.node i x l s cs)] := by
+  simp only [liftAdd, sup, T.cs, T.len]
+  split <;> rename_i hh
+  · simp [hh]
+  · split
+    · rename_i c hc; exact absurd hc (hh c)
+    · rfl
+
+mutual
+/-- the loop over the post-order of one element `u` of a sibling list turns it into `sup u` -/
+theorem fold_elem : ∀ (u : T) (pre post : List T), (idsL (pre ++ u :: post)).Nodup →
+    (Heap.postIds u).foldl stepL (pre ++ u :: post) = pre ++ sup u :: post
+  | .node i x l s cs, pre, post, hnd => by
+      have hnd' := hnd
+      simp only [idsL_append, idsL, ids] at hnd'
+      have hdis1 : ∀ a ∈ idsL pre, ∀ b ∈ (i :: idsL cs) ++ idsL post, a ≠ b := (List.nodup_append.mp hnd').2.2
+      have hrest := (List.nodup_append.mp hnd').2.1
+      have hndu := (List.nodup_append.mp hrest).1
+      have hdis2 : ∀ a ∈ i :: idsL cs, ∀ b ∈ idsL post, a ≠ b := (List.nodup_append.mp hrest).2.2
+      have hndu' := List.nodup_cons.mp hndu
+      simp only [Heap.postIds, List.foldl_append, List.foldl_cons, List.foldl_nil]
+      rw [fold_inside i x l s pre post (Heap.postIdsL cs) cs ?_]
+      · have hA := fold_list cs [] (by simpa using hndu'.2)
+        simp only [List.nil_append] at hA
+        rw [hA]
+        have hi_pre : i ∉ idsL pre := fun hm => hdis1 i hm i (by simp) rfl
+        have hi_post : i ∉ idsL post := fun hm => hdis2 i (by simp) i hm rfl
+        unfold stepL
+        rw [spliceL_decomp i liftAdd _ post hi_post pre hi_pre]
+        simp [T.id, liftAdd_sup]
+      · intro nd hn
+        have hin := postIdsL_sub cs nd hn
+        refine ⟨fun e => hndu'.1 (e ▸ hin), fun hm => hdis1 nd hm nd (by simp [hin]) rfl,
+          fun hm => hdis2 nd (by simp [hin]) nd hm rfl⟩
+/-- … and over the post-orders of the elements `cs` behind an already processed prefix `done` -/
+theorem fold_list : ∀ (cs done : List T), (idsL (done ++ cs)).Nodup →
+    (Heap.postIdsL cs).foldl stepL (done ++ cs) = done ++ supL cs
+  | [], done, _ => by simp [Heap.postIdsL, supL]
+  | c :: cs, done, hnd => by
+      simp only [Heap.postIdsL, List.foldl_append]
+      rw [fold_elem c done cs hnd]
+      have e : done ++ sup c :: cs = (done ++ [sup c]) ++ cs := by simp
+      rw [e, fold_list cs (done ++ [sup c]) ?_]
+      · simp [supL]
+      · -- ids of `sup c` are among those of `c`
+        have hnd' := hnd
+        simp only [idsL_append, idsL, List.append_nil] at hnd' ⊢
+        have h1 := (List.nodup_append.mp hnd').1
+        have h2 := (List.nodup_append.mp hnd').2.1
+        have h3 : ∀ a ∈ idsL done, ∀ b ∈ ids c ++ idsL cs, a ≠ b := (List.nodup_append.mp hnd').2.2
+        have h4 := (List.nodup_append.mp h2).1
+        have h5 := (List.nodup_append.mp h2).2.1
+        have h6 : ∀ a ∈ ids c, ∀ b ∈ idsL cs, a ≠ b := (List.nodup_append.mp h2).2.2
+        have hsupnd : (ids (sup c)).Nodup := by
+          have : WF (sup c) := wf_of_le (show WF c from h4) (sup_le c)
+          exact this
+        rw [List.append_assoc]
+        apply List.nodup_append.mpr
+        refine ⟨h1, List.nodup_append.mpr ⟨hsupnd, h5, fun a ha b hb => h6 a (sup_ids_sub c a ha) b hb⟩, ?_⟩
+        intro a ha b hb
+        simp only [List.mem_append] at hb
+        rcases hb with hb | hb
+        · exact h3 a ha b (by simp [sup_ids_sub c b hb])
+        · exact h3 a ha b (by simp [hb])
+end
+
+
+mutual
+theorem splice_single (c : Nat) : ∀ t : T, splice c (fun x => [x]) t = t
+  | .node i a b d cs => by simp only [splice, spliceL_single c cs]
+theorem spliceL_single (c : Nat) : ∀ cs : List T, spliceL c (fun x => [x]) cs = cs
+  | [] => rfl
+  | x :: xs => by
+      simp only [spliceL]
+      split
+      · rfl
+      · rw [splice_single c x, spliceL_single c xs]
+end
+
+/-- one iteration of the loop at a non-seed node of a represented tree -/
+theorem supStep_repr (h : Heap) (t : T) (nd : Nat) (hr : Repr h none t) (hw : WF t) (hin : nd ∈ ids t) (hne : nd ≠ t.id) :
+    Repr (Heap.supStep h nd) none (stepT t nd) ∧ WF (stepT t nd) ∧ (stepT t nd).id = t.id ∧
+    (∀ y ∈ ids t, y ≠ nd → y ∈ ids (stepT t nd)) := by
+  obtain ⟨n, hf⟩ := find_exists nd t hin
+  obtain ⟨g, hpg, hrn, hgn, _, hndn⟩ := find_sub h nd none t n hr hw hf hne
+  have hid : n.id = nd := find_id nd t n hf
+  have hchn : h.ch nd = n.cs.map T.id := by rw [← hid]; exact repr_root_ch h (some g) n hrn
+  have hex := Aux.splice_exact nd liftAdd t n (fun e => hne e.symm) hf (wf_cnt hw nd)
+  have hl : nd ∈ h.ch g := child_listed h nd g none t hr hin hne hpg
+  have hgnd : g ≠ nd := fun e => hgn (e ▸ hid ▸ id_mem_ids n)
+  unfold stepT
+  refine ⟨?_, ?_, Aux.splice_id nd liftAdd t, ?_⟩
+  · cases hcs : n.cs with
+    | nil =>
+      have e1 : Heap.supStep h nd = h := by simp [Heap.supStep, hchn, hcs]
+      have e2 : splice nd liftAdd t = t := by
+        rw [splice_congr nd liftAdd (fun x => [x]) t ?_ (wf_cnt hw nd) (fun e => hne e.symm), splice_single]
+        intro x hx; rw [hf] at hx; injection hx with hx; subst hx; simp [liftAdd, hcs]
+      rw [e1, e2]; exact hr
+    | cons ch rest =>
+      cases rest with
+      | cons c2 r2 =>
+        have e1 : Heap.supStep h nd = h := by simp [Heap.supStep, hchn, hcs]
+        have e2 : splice nd liftAdd t = t := by
+          rw [splice_congr nd liftAdd (fun x => [x]) t ?_ (wf_cnt hw nd) (fun e => hne e.symm), splice_single]
+          intro x hx; rw [hf] at hx; injection hx with hx; subst hx; simp [liftAdd, hcs]
+        rw [e1, e2]; exact hr
+      | nil =>
+        have hk : h.ch nd = [ch.id] := by rw [hchn, hcs]; rfl
+        have e1 : Heap.supStep h nd = ssHeap h g nd ch.id := by
+          simp only [Heap.supStep, hk, hpg, removeChild_eq h g nd hl]; rfl
+        rw [e1]
+        exact spliceG_repr h _ g nd liftAdd (ssHeap_ok h g nd ch.id hk hgnd) hpg _ none t (Nat.le_refl _) hr hw hin hne
+  · apply wf_of_le hw
+    intro i
+    have := hex i
+    have hc := cnt_eq i n
+    cases hcs : n.cs with
+    | nil =>
+      have hl : liftAdd n = [n] := by simp [liftAdd, hcs]
+      rw [hl] at this; simp only [cntL_cons, cntL_nil] at this; omega
+    | cons ch rest =>
+      cases rest with
+      | cons c2 r2 =>
+        have hl : liftAdd n = [n] := by simp [liftAdd, hcs]
+        rw [hl] at this; simp only [cntL_cons, cntL_nil] at this; omega
+      | nil =>
+        have hl : liftAdd n = [ch.withLen (addLen ch.len n.len)] := by simp [liftAdd, hcs]
+        rw [hl] at this; rw [hcs] at hc
+        simp only [cntL_cons, cntL_nil, cnt_withLen] at this hc; omega
+  · intro y hy hyn
+    rw [mem_iff_cnt] at hy ⊢
+    have := hex y
+    have hc := cnt_eq y n
+    have hidy : ¬ n.id = y := fun e => hyn (by rw [← e, hid])
+    cases hcs : n.cs with
+    | nil =>
+      have hl : liftAdd n = [n] := by simp [liftAdd, hcs]
+      rw [hl] at this; simp only [cntL_cons, cntL_nil] at this; omega
+    | cons ch rest =>
+      cases rest with
+      | cons c2 r2 =>
+        have hl : liftAdd n = [n] := by simp [liftAdd, hcs]
+        rw [hl] at this; simp only [cntL_cons, cntL_nil] at this; omega
+      | nil =>
+        have hl : liftAdd n = [ch.withLen (addLen ch.len n.len)] := by simp [liftAdd, hcs]
+        rw [hl] at this; rw [hcs] at hc
+        simp only [cntL_cons, cntL_nil, cnt_withLen, hidy, if_false] at this hc; omega
+
+/-- the loop over any duplicate-free list of non-seed nodes of the tree -/
+theorem supLoop_inner : ∀ (order : List Nat) (h : Heap) (t : T), Repr h none t → WF t → order.Nodup →
+    (∀ nd ∈ order, nd ∈ ids t ∧ nd ≠ t.id) →
+    Repr (Heap.supLoop h order) none (order.foldl stepT t) ∧ WF (order.foldl stepT t) ∧ (order.foldl stepT t).id = t.id
+  | [], h, t, hr, hw, _, _ => ⟨hr, hw, rfl⟩
+  | nd :: order, h, t, hr, hw, hnd, hall => by
+      have hnd' := List.nodup_cons.mp hnd
+      obtain ⟨h0, h1⟩ := hall nd (by simp)
+      obtain ⟨s1, s2, s3, s4⟩ := supStep_repr h t nd hr hw h0 h1
+      have ih := supLoop_inner order (Heap.supStep h nd) (stepT t nd) s1 s2 hnd'.2 (by
+        intro y hy
+        have := hall y (by simp [hy])
+        have hyn : y ≠ nd := fun e => hnd'.1 (e ▸ hy)
+        exact ⟨s4 y this.1 hyn, by rw [s3]; exact this.2⟩)
+      simp only [Heap.supLoop, List.foldl_cons] at ih ⊢
+      exact ⟨ih.1, ih.2.1, by rw [ih.2.2, s3]⟩
+
+end DendroModel.C03.AuxH
+
+namespace DendroModel.C03.AuxH
+open DendroModel DendroModel.C03 DendroModel.C03.Aux DendroModel.C03.HeapAux DendroModel.C03.AuxR
+
+theorem fold_root (i : Nat) (x : Option Nat) (l : Option Frac) (s : Option String) : ∀ (order : List Nat) (cs : List T),
+    order.foldl stepT (.node i x l s cs) = .node i x l s (order.foldl stepL cs)
+  | [], _ => rfl
+  | nd :: order, cs => by
+      simp only [List.foldl_cons]
+      exact fold_root i x l s order (stepL cs nd)
+
+mutual
+theorem postIds_nodup : ∀ t : T, (ids t).Nodup → (Heap.postIds t).Nodup
+  | .node i a b d cs, h => by
+      simp only [ids, List.nodup_cons] at h
+      simp only [Heap.postIds]
+      apply List.nodup_append.mpr
+      refine ⟨postIdsL_nodup cs h.2, by simp, ?_⟩
+      intro y hy z hz
+      simp only [List.mem_singleton] at hz
+      subst hz
+      exact fun e => h.1 (e ▸ postIdsL_sub cs y hy)
+theorem postIdsL_nodup : ∀ cs : List T, (idsL cs).Nodup → (Heap.postIdsL cs).Nodup
+  | [], _ => by simp [Heap.postIdsL]
+  | c :: cs, h => by
+      simp only [idsL] at h
+      simp only [Heap.postIdsL]
+      apply List.nodup_append.mpr
+      refine ⟨postIds_nodup c (List.nodup_append.mp h).1, postIdsL_nodup cs (List.nodup_append.mp h).2.1, ?_⟩
+      intro y hy z hz
+      exact (List.nodup_append.mp h).2.2 y (postIds_sub c y hy) z (postIdsL_sub cs z hz)
+end
+
+end DendroModel.C03.AuxH
+
+namespace DendroModel.C03
+open DendroModel DendroModel.C03.Aux DendroModel.C03.HeapAux DendroModel.C03.AuxR DendroModel.C03.AuxH
+
+/-! ## the loop of `Tree.suppress_unifurcations` at pointer level -/
+
+/-- **The loop of `Tree.suppress_unifurcations`, as written, at pointer level.**  On a heap that represents a tree without
+shared nodes: visiting the nodes in post-order and splicing out every node that has exactly one child at the moment it is
+visited (`pos = parent._child_nodes.index(nd); parent.remove_child(nd); parent.insert_child(pos, child);
+nd._parent_node = None`; for the parentless seed: `child._parent_node = None`, the child becomes the seed) leaves a heap that
+represents exactly the tree-level `sup t` — the function `step` runs for `suppress_unifurcations` and inside
+`encode_bipartitions`, `reseed_at`, the pruning routines; in particular its root is parentless. -/
+theorem suppressLoop_repr (h : Heap) (t : T) (hr : Repr h none t) (hw : WF t) :
+    Repr (Heap.supLoop h (Heap.postIds t)) none (sup t) := by
+  cases t with
+  | node i x l s cs =>
+  have hw' : (ids (T.node i x l s cs)).Nodup := hw
+  simp only [ids, List.nodup_cons] at hw'
+  have hinner := supLoop_inner (Heap.postIdsL cs) h (.node i x l s cs) hr hw (postIdsL_nodup cs hw'.2) (by
+    intro nd hnd
+    have := postIdsL_sub cs nd hnd
+    exact ⟨by simp [ids, this], by simp only [T.id]; exact fun e => hw'.1 (e ▸ this)⟩)
+  have hfold : (Heap.postIdsL cs).foldl stepT (.node i x l s cs) = .node i x l s (supL cs) := by
+    rw [fold_root]
+    have := fold_list cs [] (by simpa using hw'.2)
+    simp only [List.nil_append] at this
+    rw [this]
+  rw [hfold] at hinner
+  obtain ⟨hr1, hw1, _⟩ := hinner
+  have hloop : Heap.supLoop h (Heap.postIds (.node i x l s cs)) =
+      Heap.supStep (Heap.supLoop h (Heap.postIdsL cs)) i := by
+    simp [Heap.supLoop, Heap.postIds, List.foldl_append]
+  rw [hloop]
+  generalize Heap.supLoop h (Heap.postIdsL cs) = h1 at hr1
+  simp only [Repr] at hr1
+  obtain ⟨hpar, hch, hrl⟩ := hr1
+  have hw1' : (ids (T.node i x l s (supL cs))).Nodup := hw1
+  simp only [ids, List.nodup_cons] at hw1'
+  simp only [sup]
+  match hsl : supL cs, hch, hrl, hw1' with
+  | [c], hch, hrl, hw1' =>
+    have e : Heap.supStep h1 i = h1.setPar c.id none := by
+      simp [Heap.supStep, hch, hpar]
+    rw [e]
+    simp only [ReprL, and_true] at hrl
+    simp only [idsL, List.append_nil] at hw1'
+    apply withLen_repr
+    apply repr_reparent h1 _ (some i) none c hrl
+    · intro y hy
+      have : y ≠ c.id := by
+        cases c with
+        | node j a b d e2 =>
+          simp only [T.cs] at hy
+          have := hw1'.2; simp only [ids, List.nodup_cons] at this
+          simp only [T.id]; exact fun e1 => this.1 (e1 ▸ hy)
+      simp [Heap.setPar, this]
+    · simp [Heap.setPar]
+    · simp [Heap.setPar]
+  | [], hch, hrl, _ =>
+    have e : Heap.supStep h1 i = h1 := by simp [Heap.supStep, hch]
+    rw [e]; simp only [Repr]; exact ⟨hpar, hch, hrl⟩
+  | a :: b :: r, hch, hrl, _ =>
+    have e : Heap.supStep h1 i = h1 := by simp [Heap.supStep, hch]
+    rw [e]; simp only [Repr]; exact ⟨hpar, hch, hrl⟩
+
+/-- end to end from the tree's own heap, through `step`: the heap the loop leaves represents the tree `step` returns for
+`suppress_unifurcations` -/
+theorem suppressLoop_refines (s s' : St) (hw : WF s.t) (hs : step s .suppressUnif = .ok s') :
+    Repr (Heap.supLoop (Heap.ofTree none Heap.empty s.t) (Heap.postIds s.t)) none s'.t := by
+  simp only [step] at hs
+  injection hs with hs; subst hs
+  exact suppressLoop_repr _ s.t (ofTree_repr s.t hw) hw
+
+/-- non-vacuity: ((A,B)x)y over a unary seed — the seed and x-less chain are spliced out: (((A,B))) becomes (A,B) rooted at
+the innermost node; and a unary node in the middle of a child list keeps its place -/
+example : let t : T := .node 0 none none none [.node 1 none none none [.node 2 none none none
+      [.node 3 (some 0) none none [], .node 4 (some 1) none none []]]]
+    (sup t).id = 2 ∧ (Heap.supLoop (Heap.ofTree none Heap.empty t) (Heap.postIds t)).par 2 = none ∧
+    (Heap.supLoop (Heap.ofTree none Heap.empty t) (Heap.postIds t)).ch 2 = [3, 4] := by
+  intro t; refine ⟨by decide, by decide, by decide⟩
+example : let t : T := .node 0 none none none [.node 1 (some 0) none none [], .node 2 none none none [.node 3 (some 1) none none []],
+      .node 4 (some 2) none none []]
+    (sup t).cs.map T.id = [1, 3, 4] ∧ (Heap.supLoop (Heap.ofTree none Heap.empty t) (Heap.postIds t)).ch 0 = [1, 3, 4] ∧
+    (Heap.supLoop (Heap.ofTree none Heap.empty t) (Heap.postIds t)).par 3 = some 0 ∧
+    (Heap.supLoop (Heap.ofTree none Heap.empty t) (Heap.postIds t)).par 2 = none := by
+  intro t; refine ⟨by decide, by decide, by decide, by decide⟩
+
+end DendroModel.C03
+
+namespace DendroModel.C03
+open DendroModel DendroModel.C03.Aux DendroModel.C03.HeapAux DendroModel.C03.AuxR DendroModel.C03.AuxH
+
+/-- **`reseed_at(new_seed_node, update_bipartitions=<any>, collapse_unrooted_basal_bifurcation=<any>,
+suppress_unifurcations=True)` at pointer level, in full**, for the documented domain (`new_seed_node` an internal node of the
+tree, or the seed itself): the inversion chain as written; then, exactly when the guard fires and a child is to be dissolved,
+the one `Edge.collapse` of `collapse_basal_bifurcation`; then the loop of `suppress_unifurcations` over the post-order of
+the tree reached — the final heap represents the tree `step` returns for `reseedAt target collapse true`.
+(This is the full form of `reseedAt_refines_partial`.  A LEAF as new seed — outside the documented domain, issued by the
+harness as `undoc` — additionally runs the leaf-target clean-up, which is not in the heap model.) -/
+theorem reseedAt_refines (s : St) (target : Nat) (collapse : Bool) (hw : WF s.t) (ht : target ∈ ids s.t)
+    (hint : target = s.t.id ∨ ∃ n, T.find? target s.t = some n ∧ n.cs.isEmpty = false) :
+    ∃ h1 h2, Heap.reseedChain (Heap.ofTree none Heap.empty s.t) (s.t.size + 2) target = some h1 ∧
+      (h2 = h1 ∨ ∃ d, Heap.edgeCollapse h1 d = some h2) ∧
+      Repr h2 none (reseedAt target collapse false s).t ∧
+      Repr (Heap.supLoop h2 (Heap.postIds (reseedAt target collapse false s).t)) none (reseedAt target collapse true s).t := by
+  have hcore : reseedCore target true s.t = reseedCore target false s.t := by
+    unfold reseedCore
+    split
+    · rfl
+    · rename_i hne
+      rcases hint with e | ⟨n, hf, hk⟩
+      · exact absurd (by simp [e]) hne
+      · simp only [hf, hk, Bool.false_and, Bool.false_eq_true, if_false]
+  have hsup : (reseedAt target collapse true s).t = sup (reseedAt target collapse false s).t := by
+    simp only [reseedAt, hcore, encodeStruct, Bool.false_eq_true, if_false, if_true]
+  have hw0 : WF (reseedAt target collapse false s).t := wf_of_le hw (reseedAt_le target collapse false s)
+  obtain ⟨h1, hc, hcases⟩ := reseedAt_collapse_refines s target collapse hw ht
+  rw [hsup]
+  rcases hcases with hr | ⟨d, h2, e1, hr, _⟩
+  · exact ⟨h1, h1, hc, Or.inl rfl, hr, suppressLoop_repr h1 _ hr hw0⟩
+  · exact ⟨h1, h2, hc, Or.inr ⟨d, e1⟩, hr, suppressLoop_repr h2 _ hr hw0⟩
+
+/-- non-vacuity: re-seeding the unrooted (((C,D)x)y,E) at the unary internal node y (1) with every clean-up on: one
+inversion, the basal collapse dissolving x, and the suppression loop splicing out the old seed (now unary over E):
+the result is y[C, D, E] -/
+example : let t : T := .node 0 none none none [.node 1 none none none [.node 2 none none none
+        [.node 3 (some 0) none none [], .node 4 (some 1) none none []]], .node 5 (some 2) none none []]
+    (∃ n, T.find? 1 t = some n ∧ n.cs.isEmpty = false) ∧
+    (reseedAt 1 true true { t := t, rooted := some false }).t.cs.map T.id = [3, 4, 5] ∧
+    (((Heap.reseedChain (Heap.ofTree none Heap.empty t) (t.size + 2) 1).bind (fun h => Heap.edgeCollapse h 2)).map
+      (fun h => (Heap.supLoop h (Heap.postIds (reseedAt 1 true false { t := t, rooted := some false }).t)))).map
+      (fun h => (h.ch 1, h.par 5, h.par 0)) = some ([3, 4, 5], some 1, none) := by
+  intro t; refine ⟨⟨_, rfl, by decide⟩, by decide, by decide⟩
 
 end DendroModel.C03
 
